@@ -41,5 +41,10 @@ Example C32_ex :
   words (2 ^ 64) = 2 /\ words (2 ^ 64 - 1) = 1 /\ words 0 = 0 /\ words (- 2 ^ 6399) = 100 /\
   metered MShr (2 ^ 6399) 640 = 192 /\ result_bytes MShr (2 ^ 6399) 640 = 720 /\
   metered MMod (2 ^ 3200 - 1) (2 ^ 2559 + 12345) = 120 /\ result_bytes MMod (2 ^ 3200 - 1) (2 ^ 2559 + 12345) = 320 /\
-  metered MMul (2 ^ 6399) (2 ^ 6399) = 8 * 204.
+  metered MMul (2 ^ 6399) (2 ^ 6399) = 8 * 908.
 Proof. vm_compute. repeat split. Qed.
+
+(* the estimators depend on the operands only through their summary (used by the correspondence run) *)
+Theorem C32_metered_factors_through_summary : forall o a b, metered_s o (summ a b) = metered o a b.
+Proof. exact metered_summ. Qed.
+Print Assumptions C32_metered_factors_through_summary.
